@@ -963,4 +963,143 @@ theorem fork_disjoint {F : Forest} {kept t1 t2 : List Nat} {l0 r0 : Nat}
       exact hn.2.2 x hxk x hx rfl
 
 
+
+
+/-! ### runX: faults and side effects -/
+
+theorem raiseIdx_nil (t : Nat) : ∀ evs : List Event, raiseIdx [] t evs = none
+  | [] => rfl
+  | e :: es => by simp [raiseIdx, raiseIdx_nil t es]
+
+theorem cut_nil (r : RecX) : r.cut [] = (r, none) := by
+  simp [RecX.cut, raiseIdx_nil]
+
+theorem setsEnd_nil (evs : List Event) : setsEnd [] evs = false := by
+  simp [setsEnd]
+
+theorem cut_fields (raises : List (Event × Nat)) (r : RecX) :
+    (r.cut raises).1.tick = r.tick ∧ (r.cut raises).1.pre = r.pre ∧ (r.cut raises).1.post = r.post ∧
+    (r.cut raises).1.switch = r.switch ∧ (r.cut raises).1.events <+: r.events := by
+  unfold RecX.cut
+  split
+  · exact ⟨rfl, rfl, rfl, rfl, List.prefix_refl _⟩
+  · exact ⟨rfl, rfl, rfl, rfl, List.take_prefix _ _⟩
+
+/-- the event a cut record ends with is one that raises at that tick, and no earlier event of the record does -/
+theorem raiseIdx_some {raises : List (Event × Nat)} {t : Nat} : ∀ {evs : List Event} {i : Nat},
+    raiseIdx raises t evs = some i →
+    ∃ e, evs[i]? = some e ∧ (e, t) ∈ raises ∧ ∀ e' ∈ evs.take i, (e', t) ∉ raises
+  | [], _, h => by simp [raiseIdx] at h
+  | e :: es, i, h => by
+    unfold raiseIdx at h
+    split at h
+    · next hc =>
+      cases h
+      exact ⟨e, rfl, by simpa using hc, by simp⟩
+    · next hc =>
+      cases h2 : raiseIdx raises t es with
+      | none => simp [h2] at h
+      | some j =>
+        simp [h2] at h
+        subst h
+        obtain ⟨e', h3, h4, h5⟩ := raiseIdx_some h2
+        refine ⟨e', by simpa using h3, h4, ?_⟩
+        intro x hx
+        simp only [List.take_succ_cons, List.mem_cons] at hx
+        rcases hx with hx | hx
+        · subst hx; simpa using hc
+        · exact h5 x hx
+
+def finalOf : FinalX → Final
+  | .live => .live | .ret b => .ret b | .typeError => .exc | .indexError => .exc | .raised _ _ => .exc
+
+def recOf (r : RecX) : Nat × Option Nat × List Event := (r.tick, r.post, r.events)
+def recOf' (r : Rec) : Nat × Option Nat × List Event := (r.tick, r.active, r.events)
+
+theorem loopX_no_faults (F : Forest) (endat : Nat) : ∀ (k t a : Nat),
+    (loopX F endat [] [] k t a false).1.map recOf = (loop F endat k t a).1.map recOf' ∧
+    finalOf (loopX F endat [] [] k t a false).2 = (loop F endat k t a).2
+  | 0, _, _ => by simp [loopX, loop, finalOf]
+  | k + 1, t, a => by
+    unfold loopX loop
+    simp only [Bool.or_false, cut_nil, setsEnd_nil]
+    split
+    · simp [recOf, recOf', endPass, finalOf]
+    · cases hp : pass F t a with
+      | mk r o =>
+        cases o with
+        | none =>
+          simp only [recOf, recOf', finalOf, List.map_cons, List.map_nil, and_true]
+          have : r.tick = t := by
+            have := congrArg (fun x => x.1.tick) hp
+            simp only at this
+            rw [← this]; unfold pass; split <;> rfl
+          simp [this]
+        | some a' =>
+          have ih := loopX_no_faults F endat k (t + 1) a'
+          simp only [List.map_cons, ih.1, ih.2, and_true]
+          have : r.tick = t := by
+            have := congrArg (fun x => x.1.tick) hp
+            simp only at this
+            rw [← this]; unfold pass; split <;> rfl
+          simp [recOf, recOf', this]
+
+
+
+
+theorem runX_no_faults_lemma (F : Forest) (hF : F ≠ []) (first ticks endat : Nat) :
+    (runX F first ticks endat [] []).1.map recOf = (run F first ticks endat).1.map recOf' ∧
+    finalOf (runX F first ticks endat [] []).2 = (run F first ticks endat).2 := by
+  have hne : F.isEmpty = false := by cases F <;> simp_all
+  unfold runX run
+  simp only [hne, cut_nil, setsEnd_nil, Bool.or_false]
+  cases hp : (predo F 0 (pile F (first - 1))).2 with
+  | false => simp [recOf, recOf', finalOf]
+  | true =>
+    cases ticks with
+    | zero => simp [recOf, recOf', finalOf]
+    | succ k =>
+      have ih := loopX_no_faults F endat k 2 (first - 1)
+      simp [recOf, recOf', ih.1, ih.2]
+
+/-- every record the faulty run produces is a prefix of what the fault-free pass (or ending pass) from some
+active box logs at that tick -/
+theorem loopX_records (F : Forest) (endat : Nat) (enders : List Event) (raises : List (Event × Nat)) :
+    ∀ (k t a : Nat) (flag : Bool), ∀ r ∈ (loopX F endat enders raises k t a flag).1,
+      ∃ a', r.events <+: (pass F r.tick a').1.events ∨ r.events <+: (endPass F r.tick a').events
+  | 0, _, _, _ => by simp [loopX]
+  | k + 1, t, a, flag => by
+    intro r hr
+    unfold loopX at hr
+    dsimp only at hr
+    split at hr
+    · have hc := cut_fields raises ⟨t, some a, none, (endPass F t a).events.length, (endPass F t a).events⟩
+      rcases hcut : RecX.cut raises ⟨t, some a, none, (endPass F t a).events.length, (endPass F t a).events⟩ with ⟨r', o⟩
+      rw [hcut] at hr hc
+      have hr' : r = r' := by cases o <;> simpa using hr
+      subst hr'
+      exact ⟨a, Or.inr (by rw [hc.1]; exact hc.2.2.2.2)⟩
+    · have hc := cut_fields raises ⟨t, some a, (pass F t a).1.active, switchAt F t a, (pass F t a).1.events⟩
+      rcases hcut : RecX.cut raises ⟨t, some a, (pass F t a).1.active, switchAt F t a, (pass F t a).1.events⟩ with ⟨r', o⟩
+      rw [hcut] at hr hc
+      have key : ∃ a', r'.events <+: (pass F r'.tick a').1.events ∨ r'.events <+: (endPass F r'.tick a').events :=
+        ⟨a, Or.inl (by rw [hc.1]; exact hc.2.2.2.2)⟩
+      cases o with
+      | some e => simp at hr; subst hr; exact key
+      | none =>
+        dsimp only at hr
+        split at hr
+        · simp at hr; subst hr; exact key
+        · next a2 _ =>
+          simp only [List.mem_cons] at hr
+          rcases hr with hr | hr
+          · subst hr; exact key
+          · exact loopX_records F endat enders raises k (t + 1) a2 _ r hr
+
+theorem switchAt_go {F : Forest} {t a d : Nat} {ev : List Event} {q : Quad}
+    (h : scanPile F t a (pile F a) = .go ev d q) :
+    switchAt F t a = (ev ++ (exdoL F q.exdos ++ rexdoL F q.rexdos)).length := by
+  unfold switchAt; rw [h]
+
+
 end Hio.Box
